@@ -147,7 +147,7 @@ func init() {
 		// --- Rotate, gcd
 		if fn := x.Func(f, "", "Rotate"); fn != nil {
 			V := map[string]string{"len(ss)": "n", "k": "k", "i": "i", "j": "j", "next": "next"}
-			b := fn.Body.List
+			b := mergeElseIf(fn.Body.List) // `if !ok { panic }; if … { return }` reads as `if !ok { panic } else if …`
 			if x.wantStmts("Rotate", b, "k, ok := sliceCheck(k, len(ss))", "*", "*", "*") {
 				g := b[1].(*ast.IfStmt)
 				if x.Src(g.Cond) != "!ok" || !x.wantStmts("Rotate (panic)", g.Body.List, `panic("offset out of range")`) {
@@ -208,7 +208,7 @@ func init() {
 		// --- Chunks
 		if fn := x.Func(f, "", "Chunks"); fn != nil {
 			V := map[string]string{"len(vs)": "len", "n": "n", "i": "i"}
-			b := fn.Body.List
+			b := mergeElseIf(fn.Body.List)
 			if x.wantStmts("Chunks", b, "*", "*", "i := 0", "*", "return out") {
 				g := b[0].(*ast.IfStmt)
 				fs.set("chunksPanics", x.CondExpr(g.Cond, V, true), "`Chunks`: `if "+x.Src(g.Cond)+" { panic }`")
